@@ -20,12 +20,16 @@
 #include <tbox/event/loop.h>
 #include <tbox/http/server/server.h>
 #include <tbox/network/sockaddr.h>
+#include <tbox/base/log_impl.h>
+#include <tbox/base/log.h>
 
 #include <arpa/inet.h>
 #include <netinet/in.h>
 #include <netinet/tcp.h>
 #include <sys/socket.h>
 #include <poll.h>
+#include <sys/ioctl.h>
+#include <linux/sockios.h>
 #include <errno.h>
 #include <signal.h>
 #include <cxxabi.h>
@@ -110,6 +114,8 @@ struct World {
     std::string exc;                // exception that escaped runLoop()
     bool client_open = false;
     uint64_t last_rx_pass = 0;
+    int client_port = 0;            // local port of the client socket (to find the server's end of the connection from outside)
+    bool unjudged = false;          // the kernel never became quiescent: no verdict about things that "never happened"
 
     Plan plan_for(int k) {
         // requests the script did not foresee (live mode, or handled although they should not have been) get a random plan, once
@@ -324,8 +330,39 @@ bool client_connect(World &w, int rcvbuf) {
     setsockopt(fd, IPPROTO_TCP, TCP_NODELAY, &one, sizeof one);
     int fl = fcntl(fd, F_GETFL, 0);
     fcntl(fd, F_SETFL, fl | O_NONBLOCK);
+    struct sockaddr_in me; socklen_t ml = sizeof me;
+    if (getsockname(fd, (struct sockaddr *)&me, &ml) == 0) w.client_port = ntohs(me.sin_port);
     w.cfd = fd;
     w.client_open = true;
+    return true;
+}
+
+//! The server's end of the connection, found from outside by its address pair; -1 when the server has closed it.
+int find_server_side_fd(const World &w) {
+    for (int fd = 3; fd < 256; ++fd) {
+        if (fd == w.cfd) continue;
+        struct sockaddr_in a, b; socklen_t al = sizeof a, bl = sizeof b;
+        if (getsockname(fd, (struct sockaddr *)&a, &al) != 0 || a.sin_family != AF_INET || ntohs(a.sin_port) != w.port) continue;
+        if (getpeername(fd, (struct sockaddr *)&b, &bl) != 0 || ntohs(b.sin_port) != w.client_port) continue;
+        return fd;
+    }
+    return -1;
+}
+
+//! Nothing is on its way inside the kernel: both send queues are acknowledged and both receive queues have been read.
+//! Only then "the response never appeared" / "the request never arrived" / "the connection was not closed" is a fact about the
+//! server and not about when the kernel gets round to delivering loopback packets (it may defer that work under load).
+bool kernel_quiescent(const World &w, bool *server_end_open) {
+    int v = 0;
+    *server_end_open = false;
+    if (w.cfd < 0) return false;
+    if (ioctl(w.cfd, SIOCOUTQ, &v) != 0 || v != 0) return false;
+    if (ioctl(w.cfd, SIOCINQ, &v) != 0 || v != 0) return false;
+    int sfd = find_server_side_fd(w);
+    if (sfd < 0) return true;       // closed by the server: its FIN is delivered or on its way (the caller waits for EOF)
+    *server_end_open = true;
+    if (ioctl(sfd, SIOCOUTQ, &v) != 0 || v != 0) return false;
+    if (ioctl(sfd, SIOCINQ, &v) != 0 || v != 0) return false;
     return true;
 }
 
@@ -338,7 +375,7 @@ bool client_write(World &w, const std::string &seg) {
         if (n > 0) { off += (size_t)n; stalls = 0; continue; }
         if (n < 0 && errno == EINTR) continue;
         if (n < 0 && (errno == EAGAIN || errno == EWOULDBLOCK)) {
-            if (++stalls > 2000) return false;
+            if (++stalls > 4000) { w.unjudged = true; return false; }
             if (!one_pass(w)) return false;
             if (stalls > 50) { struct pollfd p = {w.cfd, POLLOUT, 0}; poll(&p, 1, 1); }
             continue;
@@ -458,21 +495,35 @@ void run_script(const Script &sc, vh::Rng &r, vh::Sig &sig, const char *mode) {
         return true;
     };
     // Idle = passes without any byte received, request delivered or handler completed, while no handler is pending (waiting for our
-    // own script is not idleness). Loopback delivery happens inside the sender's system call, so nothing is normally outstanding
-    // after one pass; the last 20 idle passes nevertheless wait on the socket (3 ms each) in case the kernel deferred the work.
+    // own script is not idleness). After 40 idle passes the outcome is final if the client has seen EOF/reset (nothing can follow),
+    // or once the kernel is provably quiescent on 5 consecutive passes with the server's end still open (both send queues
+    // acknowledged, both receive queues read: whatever the server wrote has arrived). While packets are still in flight - the
+    // kernel may defer loopback delivery under load - the harness keeps passing and waiting (up to 3 s); if that never settles the
+    // case is left unjudged (counted), never reported.
     uint64_t idle_from = w.pass_no;
-    const uint64_t idle_limit = 80;
+    const uint64_t idle_limit = 40;
     size_t last_rx = w.rx.size();
     size_t last_completed = w.completed.size();
     size_t last_delivered = w.delivered.size();
+    int quiet = 0, settle_rounds = 0;
     while (!w.poisoned && !done()) {
         one_pass(w);
         if (w.rx.size() != last_rx || w.completed.size() != last_completed || w.delivered.size() != last_delivered || !w.pending.empty()) {
             last_rx = w.rx.size(); last_completed = w.completed.size(); last_delivered = w.delivered.size(); idle_from = w.pass_no;
+            quiet = 0;
+            continue;
         }
-        uint64_t idle = w.pass_no - idle_from;
-        if (idle > idle_limit - 20 && !(w.eof || w.reset)) { struct pollfd p = {w.cfd, POLLIN, 0}; poll(&p, 1, 3); }
-        if (idle > idle_limit) break;
+        if (w.pass_no - idle_from <= idle_limit) continue;
+        if (w.eof || w.reset) break;                    // final: nothing can arrive after the end of the stream
+        bool server_end_open = false;
+        if (kernel_quiescent(w, &server_end_open) && server_end_open) {
+            if (++quiet >= 5) { vh::counter("srv_verdict_after_kernel_quiescence"); break; }
+            continue;
+        }
+        quiet = 0;
+        if (++settle_rounds > 600) { w.unjudged = true; break; }
+        struct pollfd p = {w.cfd, POLLIN, 0};
+        poll(&p, 1, 5);
     }
     // a few more passes: anything written after the end would show up now
     for (int i = 0; i < 25 && !w.poisoned; ++i) one_pass(w);
@@ -487,6 +538,8 @@ void run_script(const Script &sc, vh::Rng &r, vh::Sig &sig, const char *mode) {
 
     if (!w.exc.empty()) {
         vh::viol("pipeline/exception-out-of-runloop/" + w.exc, "well-formed pipeline: " + where());
+    } else if (w.unjudged) {
+        vh::counter("env_unjudged_kernel_not_quiescent");
     } else {
         // 1. requests as handed to the handlers
         bool deliv_ok = true;
@@ -562,7 +615,7 @@ void run_script(const Script &sc, vh::Rng &r, vh::Sig &sig, const char *mode) {
         }
         // 3. closure
         if (resp_ok && deliv_ok && sc.close_idx >= 0 && !(w.eof || w.reset))
-            vh::viol("pipeline/not-closed-after-closing-response", "the closing response arrived but the connection stayed open for 80 further idle passes; " + where());
+            vh::viol("pipeline/not-closed-after-closing-response", "the closing response arrived but the connection stayed open: 40 idle passes, then nothing in flight in the kernel on 5 consecutive passes; " + where());
         if (resp_ok && deliv_ok && sc.close_idx >= 0 && (w.eof || w.reset)) vh::counter(w.eof ? "srv_eof_after_closing_response" : "srv_reset_after_closing_response");
         if (resp_ok && deliv_ok && sc.close_idx < 0 && !(w.eof || w.reset)) vh::counter("srv_connection_kept_open_without_close");
     }
@@ -605,13 +658,13 @@ void run_script(const Script &sc, vh::Rng &r, vh::Sig &sig, const char *mode) {
         vh::counter("srv_responses_received", w.responses.size());
         vh::counter_max("max_pipeline_depth", (uint64_t)n);
     }
-    if (vh::want_sample(2)) {
+    if (vh::st().args.first == 0 && vh::want_sample(1) && n >= 3) {
         std::string order;
         for (int k : w.completed) order += (order.empty() ? "" : ",") + std::to_string(k);
         std::string wire;
         for (auto &rs : w.responses) wire += (wire.empty() ? "" : ",") + std::to_string(rs.xord);
         vh::sample("{\"mode\":" + vh::jstr(mode) + ",\"script\":" + vh::jstr(script_str(sc, w)) + ",\"completion_order\":" + vh::jstr(order) +
-                   ",\"responses_on_wire\":" + vh::jstr(wire) + ",\"eof\":" + (w.eof ? "true" : "false") + ",\"passes\":" + std::to_string(w.pass_no) + "}", 2);
+                   ",\"responses_on_wire\":" + vh::jstr(wire) + ",\"eof\":" + (w.eof ? "true" : "false") + ",\"passes\":" + std::to_string(w.pass_no) + "}", 1);
     }
     teardown(w, false);
     g_w = nullptr;
@@ -787,7 +840,7 @@ void case_live(vh::Rng &r) {
     vh::counter("live_cases");
     if (!w.exc.empty())
         vh::viol("live/exception-out-of-runloop/" + w.exc, vh::fmt("after %llu passes, %zu requests delivered", (unsigned long long)w.pass_no, w.delivered.size()));
-    if (vh::want_sample(1)) vh::sample("{\"mode\":\"live\",\"edits\":" + vh::jstr(what) + ",\"bytes\":" + vh::jstr(bytes.substr(0, 200)) + ",\"delivered\":" +
+    if (vh::st().args.first == 0 && vh::want_sample(1)) vh::sample("{\"mode\":\"live\",\"edits\":" + vh::jstr(what) + ",\"bytes\":" + vh::jstr(bytes.substr(0, 200)) + ",\"delivered\":" +
                                        std::to_string(w.delivered.size()) + ",\"responses\":" + std::to_string(w.responses.size()) + "}", 1);
     teardown(w, after_cleanup);
     g_w = nullptr;
@@ -796,8 +849,15 @@ void case_live(vh::Rng &r) {
 
 }  // namespace
 
+// Only fatal log lines (the text of a failed TBOX_ASSERT) are passed on, to stderr, so that an assertion abort is a named crash datum.
+static void fatal_log_sink(const LogContent *c, void *) {
+    if (c->level != LOG_LEVEL_FATAL || c->text_ptr == nullptr) return;
+    if (write(2, c->text_ptr, c->text_len) < 0 || write(2, "\n", 1) < 0) {}
+}
+
 int main(int argc, char **argv) {
     signal(SIGPIPE, SIG_IGN);
+    LogAddPrintfFunc(fatal_log_sink, nullptr);
     return vh::run(argc, argv, [](uint64_t idx, vh::Rng &r) {
         const std::string &m = vh::st().args.mode;
         if (m == "pipeline") case_pipeline(r);
